@@ -409,7 +409,7 @@ def unit_plan(src, cls, tier, rnd):
         rest = [i for i in rl if i not in pick]
         pick |= set(rnd.sample(rest, max(0, min(len(rest), nrec - len(pick)))))
         rl = sorted(pick)
-    out += [(r, prim) for r in dm.token_level(rl)]
+    out += [(r, prim) for r in dm.token_level(rl, cutmid=(cls == "Molecule" or tier == "thorough"))]
     # a token replaced by another valid value of its column (serial numbers, substructure ids, endpoints at the border)
     bb = dm.border_bonds()
     vl = sorted(set(rl) | set(bb if tier == "thorough" or len(bb) <= 4 else rnd.sample(bb, 4)))
